@@ -124,8 +124,62 @@ def execute(ops, machine: Machine) -> tuple[list[str], str | None, int]:
 
 
 # ------------------------------------------------------------------------------------------------
+# runaway guard: the pass may loop for ever (emitting ops without end); interpose on the rewriter
+# ------------------------------------------------------------------------------------------------
+class _Runaway(BaseException):
+    """Deliberately not an Exception: the pattern walker must not convert it into a diagnostic."""
+
+
+_BUDGET = [0]
+_HOOKED = [False]
+HANG_SECONDS = 30
+
+
+def _install_guard() -> None:
+    if _HOOKED[0]:
+        return
+    import signal
+
+    from xdsl.pattern_rewriter import PatternRewriter
+
+    orig = PatternRewriter.insert
+
+    def insert(self, op, *a, **k):
+        _BUDGET[0] -= 1
+        if _BUDGET[0] < 0:
+            raise _Runaway("op-budget")
+        return orig(self, op, *a, **k)
+
+    PatternRewriter.insert = insert
+
+    def on_alarm(*_):
+        raise _Runaway("wall-clock")
+
+    signal.signal(signal.SIGALRM, on_alarm)
+    _HOOKED[0] = True
+
+
+def op_budget(nmoves: int) -> int:
+    """No correct lowering of n moves needs more than 3 ops per move plus a scratch copy per cycle;
+    the guard only fires far beyond that."""
+    return 16 * nmoves + 64
+
+
+# ------------------------------------------------------------------------------------------------
 # one case
 # ------------------------------------------------------------------------------------------------
+_RT: dict[str, object] = {}
+
+
+def rt(r: str):
+    t = _RT.get(r)
+    if t is None:
+        from xdsl.dialects import riscv
+
+        t = _RT[r] = (riscv.FloatRegisterType if is_float(r) else riscv.IntRegisterType).from_name(r)
+    return t
+
+
 def graph_features(moves):
     """moves: list of (src, dst, width).  Independent description of the move graph."""
     real = [(s, d) for s, d, _ in moves if s != d]
@@ -153,9 +207,6 @@ def graph_features(moves):
 def build_module(moves, free, ssa_mode):
     from xdsl.dialects import riscv, test
     from xdsl.dialects.builtin import ArrayAttr, DenseArrayBase, ModuleOp, i32
-
-    def rt(r: str):
-        return (riscv.FloatRegisterType if is_float(r) else riscv.IntRegisterType).from_name(r)
 
     if ssa_mode == "shared":
         keys = []
@@ -189,12 +240,22 @@ def run_case(moves, free, ssa_mode):
         module.verify()
     except VerifyException as e:
         return "not-verified", {"error": str(e).splitlines()[0][:80]}
+    import signal
+
+    _install_guard()
+    _BUDGET[0] = op_budget(len(moves))
+    signal.setitimer(signal.ITIMER_REAL, HANG_SECONDS)
     try:
         RISCVLowerParallelMovPass().apply(Context(), module)
     except DiagnosticException as e:
         return "reported-failure", {"exception": type(e).__name__}
+    except _Runaway as e:
+        return "runaway", {"guard": str(e), "op_budget": op_budget(len(moves))}
     except Exception as e:  # noqa: BLE001
         return "crash", {"exception": type(e).__name__, "message": str(e).splitlines()[0][:120] if str(e) else ""}
+    finally:
+        signal.setitimer(signal.ITIMER_REAL, 0)
+        _BUDGET[0] = 1 << 60
     block = module.body.block
     ops = list(block.ops)
     problems: list[tuple[str, str, dict]] = []
@@ -258,15 +319,38 @@ def run_case(moves, free, ssa_mode):
     return "ok", info
 
 
-def shape_tag(moves, free, offending_float: bool | None) -> str:
-    f = graph_features(moves)
-    if offending_float is None:
-        cyc = f["cyc_int"] + f["cyc_flt"]
-        hasfree = bool(free)
-    else:
+def involves_zero(moves) -> bool:
+    return any(d == ZERO or (s == ZERO and s != d) for s, d, _ in moves)
+
+
+def predicate(moves, free, ssa_mode, offending_float: bool | None, trace=None) -> str:
+    """The varying-data-free part of a signature: which kind of input / which code path failed."""
+    if involves_zero(moves):
+        # everything that involves the hard-wired zero register is one family of inputs
+        return "zero-reg"
+    parts = []
+    if offending_float is not None:
+        f = graph_features(moves)
         cyc = f["cyc_flt"] if offending_float else f["cyc_int"]
         hasfree = any(is_float(x) == offending_float for x in (free or ()))
-    return ("cycle" if cyc else "acyclic") + "," + ("free" if hasfree else "nofree")
+        parts += ["float" if offending_float else "int", "cycle" if cyc else "acyclic", "free" if hasfree else "nofree"]
+        if not offending_float and trace is not None:
+            parts.append("via=xor" if any(t.startswith("xor ") for t in trace) else "via=mv")
+    parts.append(f"ssa={ssa_mode}")
+    return ",".join(parts)
+
+
+def _wkey(w) -> tuple:
+    return (len(w["moves"]), len(w["free"] or ()), sum(1 for s, d, _ in w["moves"] if s == d), repr(w["moves"]), repr(w["free"]))
+
+
+def _violate(st: Stats, sig: str, what: str, wit: dict) -> None:
+    """st.violate, but keep the smallest witness (deterministic choice) instead of the first one."""
+    st.violate(sig, what, wit)
+    v = st.violations[sig]
+    if _wkey(wit) < _wkey(v["witness"]):
+        v["witness"] = wit
+        v["what"] = what
 
 
 def check_case(st: Stats, moves, free, ssa_mode, shared_kinds=None, sample=False):
@@ -290,21 +374,27 @@ def check_case(st: Stats, moves, free, ssa_mode, shared_kinds=None, sample=False
     if status == "reported-failure":
         st.outcomes[f"reported-failure:{info['exception']}|{shape}"] += 1
         st.evaluations += 1
-        # a failure may only be reported when something is really hard: a cycle exists
         if not (feats["cyc_int"] + feats["cyc_flt"]):
-            st.bump("reported_failure_on_acyclic")
+            st.bump("reported_failure_on_acyclic_graph")  # allowed, but worth seeing
         if sample:
             st.sample({**wit, "outcome": "reported-failure"})
         return kinds
-    if status == "crash":
+    if status in ("crash", "runaway"):
         st.evaluations += 1
-        st.outcomes[f"crash:{info['exception']}"] += 1
-        kind = f"crash|{info['exception']}"
+        if status == "crash":
+            st.outcomes[f"crash:{info['exception']}"] += 1
+            kind = f"crash:{info['exception']}"
+            what = f"the pass raised {info['exception']} ({info['message']}) instead of lowering or reporting failure"
+        else:
+            st.outcomes[f"runaway:{info['guard']}"] += 1
+            kind = "does-not-terminate:" + ("emits-ops-without-end" if info["guard"] == "op-budget" else "wall-clock")
+            what = (f"the pass did not terminate (guard: {info['guard']}; more than {info['op_budget']} ops inserted "
+                    f"or {HANG_SECONDS}s elapsed)")
+            if info["guard"] != "op-budget":
+                st.cap(f"a case ran into the {HANG_SECONDS}s wall-clock guard")
         kinds.add(kind)
         if not (shared_kinds and kind in shared_kinds):
-            st.violate(f"C20|riscv-lower-parallel-mov|{shape_tag(moves, free, None)},ssa={ssa_mode}|{kind}",
-                       f"the pass raised {info['exception']} ({info['message']}) instead of lowering or reporting failure",
-                       {**wit, **info})
+            _violate(st, f"C20|riscv-lower-parallel-mov|{predicate(moves, free, ssa_mode, None)}|{kind}", what, {**wit, **info})
         return kinds
     st.evaluations += info.get("evals", 1)
     if info.get("diverged"):
@@ -320,18 +410,25 @@ def check_case(st: Stats, moves, free, ssa_mode, shared_kinds=None, sample=False
         kinds.add(kind)
         if shared_kinds and kind in shared_kinds:
             continue
-        cls = kind.split("|")[0]
+        cls, _, failure = kind.partition("|")
         off = True if cls == "float" else False if cls == "int" else None
-        sig = f"C20|riscv-lower-parallel-mov|{shape_tag(moves, free, off)},ssa={ssa_mode}|{kind}"
-        st.violate(sig, what, {**wit, "emitted": info.get("trace"), **extra})
+        pred = predicate(moves, free, ssa_mode, off, info.get("trace"))
+        if off is None:
+            failure = kind.replace("|", ":")
+        _violate(st, f"C20|riscv-lower-parallel-mov|{pred}|{failure}", what, {**wit, "emitted": info.get("trace"), **extra})
     return kinds
 
 
-def check_graph(st: Stats, moves, free, sample=False):
+def check_graph(st: Stats, moves, free, sample=False, per_operand=True):
     """shared SSA values, and (only when some source register is used twice) one value per operand."""
-    k = check_case(st, moves, free, "shared", None, sample)
     srcs = [s for s, _, _ in moves]
-    if len(set(srcs)) < len(srcs):
+    consistent = len({(s, w) for s, _, w in moves}) == len(set(srcs))
+    k = None
+    if consistent:  # one SSA value has one width: a shared value is never declared both 32 and 64 bits wide
+        k = check_case(st, moves, free, "shared", None, sample)
+    else:
+        st.bump("shared_mode_skipped_inconsistent_widths")
+    if (per_operand or not consistent) and len(set(srcs)) < len(srcs):
         check_case(st, moves, free, "per-operand", k, False)
 
 
@@ -410,7 +507,7 @@ def _shard(task) -> Stats:
                         for moves in interleavings(imoves, fmoves, task["all_orders"]):
                             for free in free_lists(cands, task["free_max"], task["free_ordered"]):
                                 count += 1
-                                check_graph(st, moves, free, sample=(count + seed * 97) % 3001 == 0)
+                                check_graph(st, moves, free, (count + seed * 97) % 3001 == 0, task["per_operand"])
     return st
 
 
@@ -420,7 +517,7 @@ def make_tasks(ctx):
     tasks = []
     fam = []
 
-    def add(D, F, free_max, free_ordered, int_widths, all_orders, zero=0, label=""):
+    def add(D, F, free_max, free_ordered, int_widths, all_orders, zero=0, per_operand=True, label=""):
         ipool = INT_POOL[:D + 1] if D else ()
         idest_regs = INT_POOL[:D]
         if zero:
@@ -438,29 +535,29 @@ def make_tasks(ctx):
                 for first in (ipool if idsts else fpool):
                     tasks.append({"idsts": idsts, "fdsts": fdsts, "ipool": ipool, "fpool": fpool, "first": first,
                                   "free_max": free_max, "free_ordered": free_ordered, "int_widths": int_widths,
-                                  "all_orders": all_orders, "seed": seed})
+                                  "all_orders": all_orders, "per_operand": per_operand, "seed": seed})
                     n += 1
         fam.append({"family": label, "int_dest_regs": D, "float_dest_regs": F, "pool": f"{D}+1 int / {F}+1 float" if F else f"{D}+1 int",
-                    "zero_register": zero, "free_list_max": free_max, "free_lists_ordered": free_ordered,
+                    "zero_register": zero, "ssa_modes": "shared + per-operand" if per_operand else "shared only", "free_list_max": free_max, "free_lists_ordered": free_ordered,
                     "int_widths": list(int_widths), "float_widths": "all of {32,64}^k" if F else None,
                     "int/float interleavings": ("all" if all_orders else "int-first, float-first") if F and D else None,
                     "shards": n})
 
     if q:
         add(4, 0, 1, False, (32,), False, label="int-only D=4")
-        add(3, 0, 1, False, (32, 64), False, label="int-only D=3, both widths")
-        add(2, 0, 2, True, (32, 64), False, zero=2, label="int-only D=2 + zero register, ordered free lists <=2")
-        add(0, 2, 1, False, (32,), False, label="float-only F=2")
+        add(3, 0, 2, True, (32, 64), False, label="int-only D=3, both widths, ordered free lists <=2")
+        add(2, 0, 1, False, (32,), False, zero=2, label="int-only D=2 + zero register (<=2 zero destinations)")
+        add(0, 2, 2, True, (32,), False, label="float-only F=2, ordered free lists <=2")
+        add(0, 3, 1, False, (32,), False, label="float-only F=3")
         add(2, 2, 1, False, (32,), False, label="mixed D=2 F=2")
         add(3, 1, 1, False, (32,), False, label="mixed D=3 F=1")
     else:
-        add(5, 0, 1, False, (32,), False, label="int-only D=5")
+        add(5, 0, 1, False, (32,), False, per_operand=False, label="int-only D=5, shared SSA values only")
         add(4, 0, 2, True, (32, 64), False, label="int-only D=4, both widths, ordered free lists <=2")
-        add(3, 0, 2, True, (32, 64), False, zero=2, label="int-only D=3 + zero register, ordered free lists <=2")
+        add(3, 0, 1, False, (32,), False, zero=2, label="int-only D=3 + zero register (<=2 zero destinations)")
         add(0, 3, 2, True, (32,), False, label="float-only F=3, ordered free lists <=2")
-        add(3, 2, 1, False, (32,), True, label="mixed D=3 F=2, all interleavings")
-        add(2, 2, 2, True, (32, 64), True, label="mixed D=2 F=2, ordered free lists <=2")
-        add(4, 1, 1, False, (32,), True, label="mixed D=4 F=1")
+        add(3, 2, 1, False, (32,), False, label="mixed D=3 F=2")
+        add(2, 2, 2, True, (32, 64), True, label="mixed D=2 F=2, both int widths, all interleavings, ordered free lists <=2")
     return tasks, fam
 
 
@@ -468,8 +565,15 @@ def run(ctx):
     tasks, fam = make_tasks(ctx)
     # big shards first so the pool drains evenly
     tasks.sort(key=lambda t: -(len(t["idsts"]) * 10 + len(t["fdsts"]) * 7))
+    best: dict[str, dict] = {}
     for _, st in pmap(_shard, tasks):
+        for sig, v in st.violations.items():
+            if sig not in best or _wkey(v["witness"]) < _wkey(best[sig]["witness"]):
+                best[sig] = v
         ctx.merge(st)
+    for sig, v in best.items():  # smallest witness per signature, independent of worker scheduling
+        ctx.stats.violations[sig]["witness"] = v["witness"]
+        ctx.stats.violations[sig]["what"] = v["what"]
     ctx.bounds = {"families": fam,
                   "ssa_modes": "one SSA value per source register; plus one SSA value per operand whenever a source "
                                "register is used more than once",
@@ -483,7 +587,9 @@ def run(ctx):
     ctx.assumptions = ["symbolic register machine in props/c20.py (mv/fmv.d copy, fmv.s keeps the low 32 bits, xor = "
                        "symmetric difference, zero is constant) models the emitted RISC-V ops",
                        "a value of SSA register type !riscv.reg<r> lives in register r (what the assembly printer does)",
-                       "raising a DiagnosticException subclass counts as 'the pass reports failure'"]
+                       "raising a DiagnosticException subclass counts as 'the pass reports failure'",
+                       "well-formed input: operands that share one SSA value are declared with one width (mixed widths on one "
+                       "register are exercised with one SSA value per operand)"]
 
 
 def replay(rep) -> bool:
